@@ -419,7 +419,9 @@ def _run_interp(case, ctx):
     spec = gen.point_spec(r, n=r.randint(3, 30), units=units, extras=False, meta={})
     iso = gen.build_point(spec, r.choice(["df", "lists", "df_offset"]))
     p, l, b = numpy.array(spec["pressure"]), numpy.array(spec["loading"]), numpy.array(spec["branch"])
-    for branch, mask in (("ads", b == 0), ("des", b == 1)):
+    # both orders of visiting the branches (the interpolators of one branch must not answer for the other), adsorption once more at the end
+    order = (("ads", b == 0), ("des", b == 1), ("ads", b == 0)) if case["seed"] % 2 else (("des", b == 1), ("ads", b == 0), ("des", b == 1))
+    for branch, mask in order:
         pp, ll = p[mask], l[mask]
         if len(pp) < 2:
             continue
